@@ -778,8 +778,24 @@ def s_partition(it, t, a, k):
     return (head, ops.mk("str", sep), tail)
 
 
+def s_rpartition(it, t, a, k):
+    """s.rpartition(sep): (head, sep, tail) with s = head ++ sep ++ tail at the last occurrence of sep (sep does
+    not occur in tail), or ('', '', s) when sep does not occur"""
+    kind, sep = lift(ops.force(a[0]))
+    lb = lawbook(it.ctx)
+    has = lb.contains(t, sep)
+    if not it.branch(has):
+        return ("", "", ops.mk("str", t))
+    head = it.ctx.fresh("str", "rpart_head")
+    tail = it.ctx.fresh("str", "rpart_tail")
+    it.ctx.add_fact(t == lb.concat([head.term, sep, tail.term]))
+    it.ctx.add_fact(z3.Not(lb.contains(tail.term, sep)))
+    return (head, ops.mk("str", sep), tail)
+
+
 STR_METHODS = {
     "partition": s_partition,
+    "rpartition": s_rpartition,
     "rstrip": s_rstrip,
     "strip": s_strip,
     "split": s_split,
@@ -1000,6 +1016,12 @@ def install(it):
     it.models[id(struct.unpack)] = ModelFn("struct.unpack", m_struct_unpack)
     it.models[id(struct.pack)] = ModelFn("struct.pack", m_struct_pack)
     it._keepalive = [binascii.unhexlify, binascii.hexlify, struct.unpack, struct.pack]
+    # logging: a logger method reached as a value (passed to a helper, bound to a local) does nothing the
+    # properties can observe; its arguments were evaluated by the caller
+    import logging
+
+    for lname in ("debug", "info", "warning", "error", "exception", "critical", "log"):
+        it.models[id(getattr(logging.Logger, lname))] = ModelFn(f"Logger.{lname}", lambda it2, a, k: None)
     from . import libmodels
 
     libmodels.install(it)
